@@ -301,12 +301,177 @@ func is(s ...string) func(*paths.Term) bool {
 	}
 }
 
-// loopCarried matches a loop phi whose entry value satisfies init and whose back-edge value
-// satisfies back.
+// loopCarried matches a value carried around a loop: a loop phi whose entry value satisfies init and whose
+// back-edge value satisfies back; or (when carriedScope names the function and loop being examined) a local
+// variable kept in memory - a struct of loop state, a variable a function literal captures - or a field of one,
+// whose value before the loop satisfies init and whose value at the end of every whole iteration satisfies back.
 func loopCarried(init, back func(*paths.Term) bool) func(*paths.Term) bool {
 	return func(t *paths.Term) bool {
-		return t != nil && t.Op == "loopphi" && len(t.Args) == 2 && t.Args[0] != nil && t.Args[1] != nil && init(t.Args[0]) && back(t.Args[1])
+		if t != nil && t.Op == "loopphi" && len(t.Args) == 2 && t.Args[0] != nil && t.Args[1] != nil && init(t.Args[0]) && back(t.Args[1]) {
+			return true
+		}
+		if mc := memCarriedOf(t); mc != nil && mc.init != nil && len(mc.backs) > 0 && !mc.unchanged && init(mc.init) {
+			for _, b := range mc.backs {
+				if !back(b) {
+					return false
+				}
+			}
+			return true
+		}
+		return false
 	}
+}
+
+// loopInvariant matches a term that is want itself, or a variable kept in memory (see loopCarried) that holds
+// want before the loop and that no iteration changes.
+func loopInvariant(want ...string) func(*paths.Term) bool {
+	return func(t *paths.Term) bool {
+		if is(want...)(t) {
+			return true
+		}
+		mc := memCarriedOf(t)
+		if mc == nil || mc.init == nil || !is(want...)(mc.init) {
+			return false
+		}
+		for _, b := range mc.backs {
+			if b.String() != t.String() && !is(want...)(b) {
+				return false
+			}
+		}
+		return true
+	}
+}
+
+// carriedScope is the function and loop whose memory-carried variables loopCarried / loopInvariant may resolve.
+var carriedScope struct {
+	x     *Ctx
+	f     *ssa.Function
+	l     *paths.Loop
+	cache map[string]*memCarried
+}
+
+func setCarriedScope(x *Ctx, f *ssa.Function, l *paths.Loop) {
+	carriedScope.x, carriedScope.f, carriedScope.l = x, f, l
+	carriedScope.cache = map[string]*memCarried{}
+}
+
+type memCarried struct {
+	init      *paths.Term   // value before the loop (nil: not the same on all paths / unknown)
+	backs     []*paths.Term // distinct values at the end of a whole iteration
+	unchanged bool          // some iteration leaves it as it was
+}
+
+// memCarriedOf resolves t = *a or (*a).f1.f2 with a a local variable of the function in scope.
+func memCarriedOf(t *paths.Term) *memCarried {
+	cs := &carriedScope
+	if t == nil || cs.f == nil || cs.l == nil {
+		return nil
+	}
+	if mc, ok := cs.cache[t.String()]; ok {
+		return mc
+	}
+	var names []string
+	base := t
+	for base.Op == "field" && len(base.Args) == 1 {
+		names = append([]string{base.Name}, names...)
+		base = base.Args[0]
+	}
+	if base.Op != "load" || len(base.Args) != 1 || base.Args[0].Op != "alloc" {
+		return nil
+	}
+	a, _ := base.Args[0].Val.(*ssa.Alloc)
+	if a == nil || a.Parent() != cs.f {
+		return nil
+	}
+	cs.cache[t.String()] = nil
+	pick := func(whole *paths.Term, fields map[string]*paths.Term) *paths.Term {
+		rest := names
+		var v *paths.Term
+		if len(rest) > 0 && fields[rest[0]] != nil {
+			v, rest = fields[rest[0]], rest[1:]
+		} else if whole != nil {
+			v = whole
+		} else {
+			return nil
+		}
+		for _, n := range rest {
+			if v.Op == "struct" {
+				found := false
+				for i, fn := range v.Names {
+					if fn == n && i < len(v.Args) {
+						v, found = v.Args[i], true
+						break
+					}
+				}
+				if found {
+					continue
+				}
+			}
+			v = paths.Raw(v.String() + "." + n)
+		}
+		return v
+	}
+	mc := &memCarried{}
+	initSeen := map[string]bool{}
+	backSeen := map[string]bool{}
+	nLatch := 0
+	for _, p := range cs.x.pathsQuiet(cs.f) {
+		if p.End != paths.EndLatch || p.Latch != cs.l.Header {
+			continue
+		}
+		nLatch++
+		var wholeB, wholeL *paths.Term
+		fieldsB, fieldsL := map[string]*paths.Term{}, map[string]*paths.Term{}
+		inLoop := false
+		p.InstrsIn(func(in ssa.Instruction, c *paths.Ctx) {
+			if in.Parent() == cs.f {
+				inLoop = cs.l.Body[in.Block()]
+			}
+			st, ok := in.(*ssa.Store)
+			if !ok {
+				return
+			}
+			at := c.Term(st.Addr)
+			if at == nil {
+				return
+			}
+			switch {
+			case at.Op == "alloc" && at.Val == ssa.Value(a):
+				if inLoop {
+					wholeL, fieldsL = c.Term(st.Val), map[string]*paths.Term{}
+				} else {
+					wholeB, fieldsB = c.Term(st.Val), map[string]*paths.Term{}
+				}
+			case at.Op == "fieldaddr" && len(at.Args) == 1 && at.Args[0].Op == "alloc" && at.Args[0].Val == ssa.Value(a):
+				if inLoop {
+					fieldsL[at.Name] = c.Term(st.Val)
+				} else {
+					fieldsB[at.Name] = c.Term(st.Val)
+				}
+			}
+		})
+		if iv := pick(wholeB, fieldsB); iv != nil {
+			initSeen[iv.String()] = true
+			mc.init = iv
+		} else {
+			initSeen["?"] = true
+		}
+		if bv := pick(wholeL, fieldsL); bv != nil {
+			if bv.String() == t.String() {
+				mc.unchanged = true
+			} else if !backSeen[bv.String()] {
+				backSeen[bv.String()] = true
+				mc.backs = append(mc.backs, bv)
+			}
+		} else {
+			mc.unchanged = true
+		}
+	}
+	if nLatch == 0 || len(initSeen) != 1 || initSeen["?"] {
+		mc.init = nil
+	}
+	cs.cache[t.String()] = mc
+	return mc
 }
 
 // constOf looks up an integer / string constant of a package by name.
